@@ -58,7 +58,7 @@ func init() {
 		switch {
 		case strings.Contains(rd, "assert.That(buf!=nil)"):
 			assertNil = "true"
-		case strings.Contains(rd, "ifbuf==nil{buf=[]byte{}}"):
+		case strings.Contains(rd, "ifbuf==nil{buf=[]byte{}"):
 			assertNil = "false"
 		default:
 			panic("dbms/mux/mux.go: reader: neither the nil-buffer assert nor the empty-message repair found")
